@@ -225,7 +225,26 @@ impl Prop for C06 {
                     plan.push((prng.usize_below(files.len()), gen_size(&mut prng, &vc.model_consts(), 1 << 22).max(1)));
                 }
                 let mut files = files;
-                let mut stream = refmla::well_formed_stream(&files, &plan);
+                // choices the description leaves to the writer: file ids need only be unique (not small, not sequential);
+                // the index lists the offset of every block of a file (FORMAT.md's example) or of each run's first block
+                let ids: Vec<u64> = match prng.below(3) {
+                    0 => (0..files.len() as u64).collect(),
+                    1 => (0..files.len() as u64).map(|i| (1u64 << 32) + 7 + i * 0x1_0000_0001).collect(),
+                    _ => (0..files.len() as u64).map(|i| u64::MAX - i * 3).collect(),
+                };
+                let every_block = case.param("every_block", i64::from(prng.chance(1, 3))) == 1;
+                if ids.first().is_some_and(|i| *i != 0) {
+                    crate::seams::fired("foreign_archive_with_large_ids");
+                }
+                if every_block {
+                    crate::seams::fired("foreign_index_lists_every_block");
+                }
+                let empty_blocks = case.param("empty_blocks", i64::from(prng.chance(1, 4))) == 1;
+                let close_full = prng.chance(1, 2);
+                if empty_blocks {
+                    crate::seams::fired("foreign_archive_with_empty_content_blocks");
+                }
+                let mut stream = refmla::well_formed_stream_full(&files, &plan, &ids, every_block, empty_blocks);
                 let align = case.param("align", -1);
                 if align >= 0 && !files.is_empty() {
                     // grow the last file so that the stream ends exactly on / next to a documented edge
@@ -234,7 +253,7 @@ impl Prop for C06 {
                     let last = files.len() - 1;
                     let extra = Data::Rand { n: d, seed: case.param("plan_seed", 1) as u64 ^ 0xA11 }.bytes();
                     files[last].1.extend_from_slice(&extra);
-                    stream = refmla::well_formed_stream(&files, &plan);
+                    stream = refmla::well_formed_stream_full(&files, &plan, &ids, every_block, empty_blocks);
                 }
                 let mut r2 = Rng::new(case.cfg.rng_seed ^ 0x5555);
                 let mut key = [0u8; 32];
@@ -244,7 +263,10 @@ impl Prop for C06 {
                 let mut eph = [0u8; 32];
                 r2.fill(&mut eph);
                 let spec = refmla::EncSpec { key, nonce, eph_priv: eph, recipients: (0..case.cfg.recipients).map(|i| refmla::pub_of(&key_bytes(case.cfg.key_seed, i))).collect() };
-                let image = refmla::wrap(&stream, case.cfg.layers & 3, case.cfg.level, Some(&spec), par);
+                if close_full && case.cfg.comp() && !stream.is_empty() && stream.len() % par.block == 0 {
+                    crate::seams::fired("foreign_archive_ends_with_an_empty_compressed_block");
+                }
+                let image = refmla::wrap_opts(&stream, case.cfg.layers & 3, case.cfg.level, Some(&spec), par, close_full);
                 let mut model = Model::default();
                 for (n, d) in &files {
                     model.order.push(n.clone());
